@@ -93,14 +93,16 @@ func (h *Authenticate) Unmarshal(v base.HeaderValue) error {
 	}
 
 	if h.Method == AuthMethodBasic {
-		kvs, err := keyValParse(v0, ',')
+		kvs, err := keyValParseOrdered(v0, ',')
 		if err != nil {
 			return err
 		}
 
 		realmReceived := false
 
-		for k, rv := range kvs {
+		for _, kv := range kvs {
+			k, rv := kv.key, kv.value
+
 			v := rv
 
 			if k == "realm" {
@@ -113,7 +115,7 @@ func (h *Authenticate) Unmarshal(v base.HeaderValue) error {
 			return fmt.Errorf("realm is missing")
 		}
 	} else { // digest
-		kvs, err := keyValParse(v0, ',')
+		kvs, err := keyValParseOrdered(v0, ',')
 		if err != nil {
 			return err
 		}
@@ -121,7 +123,9 @@ func (h *Authenticate) Unmarshal(v base.HeaderValue) error {
 		realmReceived := false
 		nonceReceived := false
 
-		for k, rv := range kvs {
+		for _, kv := range kvs {
+			k, rv := kv.key, kv.value
+
 			v := rv
 
 			switch k {
